@@ -49,7 +49,7 @@ def concurrent_history(ctx, idx, runs, desc, parse_registry, hold_us, stagger_ms
     ps = []
     for i, (inp, iface) in enumerate(runs):
         out = open(os.path.join(d, "out-%d.txt" % i), "w")
-        ps.append((subprocess.Popen([exe, "--interface=" + iface, os.path.join("..", "inputs", inp)], cwd=d, env=env,
+        ps.append((subprocess.Popen([exe, "--search-path=" + os.path.join("..", "inputs"), "--interface=" + iface, os.path.join("..", "inputs", inp)], cwd=d, env=env,
                                     stdout=out, stderr=subprocess.STDOUT), out))
         if stagger_ms:
             time.sleep(stagger_ms / 1000.0)
